@@ -264,6 +264,12 @@ fn finish_asserting(obj: &ObjValue) {
 	});
 }
 
+/// Verification hook (read-only), compiled only with `--cfg jrsonnet_verif`
+#[cfg(jrsonnet_verif)]
+pub(crate) fn verif_running_assertions() -> usize {
+	RUNNING_ASSERTIONS.with_borrow(FxHashSet::len)
+}
+
 thread_local! {
 	static EMPTY_OBJ: ObjValue = ObjValue(Cc::new(ObjValueInner {
 		cores: vec![],
